@@ -673,7 +673,7 @@ class World:
         except (FileNotFoundError, ValueError, KeyError):
             snap["results_json"] = None
         if not force and self.snaps and self.snaps[-1]["files"] == data and self.snaps[-1]["dir"] == outdir \
-                and self.snaps[-1]["results"] == snap["results"]:
+                and self.snaps[-1]["results"] == snap["results"] and self.snaps[-1]["by"] == by:
             return self.snaps[-1]
         self.snaps.append(snap)
         return snap
